@@ -40,6 +40,7 @@ func execCH(a map[string]string) vlib.Res {
 		return fmt.Sprintf("h%d.chase%d.test.", id, chSeq)
 	}
 	hops := strings.Split(a["hops"], ",")
+	var admitted []dns.RR // terminal records as handed to the cache
 	for id, h := range hops {
 		f := strings.Split(h, ":")
 		if f[0] == "x" {
@@ -55,10 +56,30 @@ func execCH(a map[string]string) vlib.Res {
 			return dns.RR_Header{Name: name(id), Rrtype: t, Class: dns.ClassINET, Ttl: ttl}
 		}
 		terminal := func() dns.RR {
-			if qt == dns.TypeMX {
-				return &dns.MX{Hdr: hdr(dns.TypeMX), Preference: 10, Mx: "mail.chase.test."}
+			// RDATA names share suffixes with the owner and with each other: the packer compresses them
+			switch qt {
+			case dns.TypeMX:
+				return &dns.MX{Hdr: hdr(dns.TypeMX), Preference: 10, Mx: fmt.Sprintf("mail.chase%d.test.", chSeq)}
+			case dns.TypePTR:
+				return &dns.PTR{Hdr: hdr(dns.TypePTR), Ptr: fmt.Sprintf("alpha.hosts.chase%d.test.", chSeq)}
+			case dns.TypeNS:
+				return &dns.NS{Hdr: hdr(dns.TypeNS), Ns: fmt.Sprintf("ns1.chase%d.test.", chSeq)}
+			case dns.TypeSRV:
+				return &dns.SRV{Hdr: hdr(dns.TypeSRV), Priority: 1, Weight: 1, Port: 53, Target: fmt.Sprintf("srv.chase%d.test.", chSeq)}
+			case dns.TypeAAAA:
+				return &dns.AAAA{Hdr: hdr(dns.TypeAAAA), AAAA: net.ParseIP("2001:db8::1")}
+			case dns.TypeTXT:
+				return &dns.TXT{Hdr: hdr(dns.TypeTXT), Txt: []string{"chase", "text"}}
+			case dns.TypeDS:
+				return &dns.DS{Hdr: hdr(dns.TypeDS), KeyTag: 1, Algorithm: 8, DigestType: 2, Digest: "00112233445566778899aabbccddeeff00112233445566778899aabbccddeeff"}
 			}
 			return &dns.A{Hdr: hdr(dns.TypeA), A: net.IPv4(192, 0, 2, byte(id+1))}
+		}
+		terminal2 := func() dns.RR { // a second record of the set, sharing the RDATA suffix
+			if qt == dns.TypePTR {
+				return &dns.PTR{Hdr: hdr(dns.TypePTR), Ptr: fmt.Sprintf("beta.hosts.chase%d.test.", chSeq)}
+			}
+			return nil
 		}
 		soa := &dns.SOA{Hdr: dns.RR_Header{Name: "test.", Rrtype: dns.TypeSOA, Class: dns.ClassINET, Ttl: ttl}, Ns: "ns.test.", Mbox: "h.test.", Serial: 1, Refresh: 2, Retry: 3, Expire: 4, Minttl: ttl}
 		switch f[0] {
@@ -66,6 +87,10 @@ func execCH(a map[string]string) vlib.Res {
 			m.Answer = []dns.RR{&dns.CNAME{Hdr: hdr(dns.TypeCNAME), Target: name(tgt)}}
 		case "a":
 			m.Answer = []dns.RR{terminal()}
+			if t2 := terminal2(); t2 != nil {
+				m.Answer = append(m.Answer, t2)
+			}
+			admitted = append(admitted, m.Answer...)
 		case "n":
 			m.Rcode = dns.RcodeNameError
 			m.Ns = []dns.RR{soa}
@@ -103,7 +128,16 @@ func execCH(a map[string]string) vlib.Res {
 	for _, r := range m.Answer {
 		ttls = append(ttls, fmt.Sprint(r.Header().Ttl))
 	}
-	impl := fmt.Sprintf("ok hops=%d an=%d ad=%s iad=%s ttls=%s", n, len(m.Answer), vlib.B(m.AuthenticatedData), vlib.B(info.AuthenticatedData), strings.Join(ttls, ","))
+	nAlias := 0
+	for _, r := range m.Answer {
+		if r.Header().Rrtype == dns.TypeCNAME {
+			nAlias++
+		}
+	}
+	if len(ttls) > nAlias+1 {
+		ttls = ttls[:nAlias+1] // one TTL per hop (a terminal RRset shares its hop's)
+	}
+	impl := fmt.Sprintf("ok hops=%d an=%d ad=%s iad=%s ttls=%s", n, nAlias+1, vlib.B(m.AuthenticatedData), vlib.B(info.AuthenticatedData), strings.Join(ttls, ","))
 	// oracle (independent of the model): what a resolver may say about a chain —
 	// authenticated only if every hop it used was, never to a CD client; the body
 	// and the facts handed to the writer chain agree; the client's question is echoed;
@@ -127,6 +161,24 @@ func execCH(a map[string]string) vlib.Res {
 		or = "FAIL sig=c05/chase/question-not-echoed"
 	case m.Id != 321 || !m.Response || m.Authoritative || m.Rcode != 0:
 		or = "FAIL sig=c05/chase/header"
+	}
+	if or == "ok" {
+		// the terminal records' RDATA is what was admitted (re-encoding must not change a name)
+		rdata := func(r dns.RR) string { return strings.TrimPrefix(r.String(), r.Header().String()) }
+		for _, r := range m.Answer {
+			if r.Header().Rrtype == dns.TypeCNAME {
+				continue
+			}
+			found := false
+			for _, x := range admitted {
+				if x.Header().Rrtype == r.Header().Rrtype && rdata(x) == rdata(r) {
+					found = true
+				}
+			}
+			if !found {
+				or = "FAIL sig=c05/chase/rdata-differs-from-admitted " + rdata(r)
+			}
+		}
 	}
 	if or == "ok" {
 		want := strings.ToLower(q.Question[0].Name)
